@@ -150,4 +150,14 @@ def hasScriptEnd : List Nat → Bool
   | [] => false
   | c :: r => (c = c%'<' && scriptEnd.isPrefixOf r) || hasScriptEnd r
 
+/-- ASCII lower case -/
+def lowerA (c : Nat) : Nat := if 65 ≤ c ∧ c ≤ 90 then c + 32 else c
+
+/-- does the byte string contain `</script` in any letter case (it ends an HTML script element whatever follows),
+    or `<!--` (it changes how a later `</script>` is read) -/
+def hasHtmlEnd : List Nat → Bool
+  | [] => false
+  | c :: r =>
+    (c = c%'<' && ((r.take 7).map lowerA == [47, 115, 99, 114, 105, 112, 116] || r.take 3 == [33, 45, 45])) || hasHtmlEnd r
+
 end Verif.Spec.JsStringSem
